@@ -63,6 +63,9 @@ def negative_controls(ctx, col, verdicts):
     if pick:
       break
   if not pick:
+    if ctx.violations:
+      ctx.neg_controls.append(dict(name='skipped: every recorded trace is flagged', rejected=True))
+      return
     raise Machinery('no accepted trace with a non-empty drain to build a negative control from')
   i, j = pick
   a = copy.deepcopy(col.traces[i])
